@@ -113,7 +113,7 @@ def _run_history(name, seed, mons, fault, kw, script):
     if fault is not None:
         epname, k, errno = fault
         ep = sc.ep(epname)
-        ep.kernel.fault_plan[len(ep.kernel.requests) + k] = ('errno', errno)
+        ep.kernel.fault_plan[len(ep.kernel.requests) + k] = ('errno', errno) if not isinstance(errno, str) else ('odd', errno)
     S.handshake(sc.sim, sc.a, sc.b)
     for act in script:
         if act[0] == 'trig':
